@@ -96,6 +96,7 @@ func gens() []gen {
 		{"uncle", 10, caseUncle, uncleCorpus()},
 		{"fields", 3, caseFields, []string{"prefork", "transition", "postfork-kawpow", "postfork-sha", "body"}},
 		{"engine", 3, caseEngine, engineCorpus()},
+		{"tmpl", 5, caseTmpl, tmplCorpus()},
 	}
 }
 
